@@ -377,6 +377,29 @@ func c06Tree(r gen.R, shape string, o ISOOpts) Tree {
 			nat(fmt.Sprintf("%s~%d.dat", base[:6], 1+r.Intn(3)))
 		}
 		return t
+	case "same-names":
+		// the same directory names under sibling parents, two and three levels down (en/docs, fr/docs, ...): a
+		// reader that finds a directory by its name and level alone ends up in the neighbour's
+		var t Tree
+		tops := []string{"en", "fr", "de", "it", "pt"}[:2+r.Intn(4)]
+		subs := []string{"docs", "img", "src"}[:1+r.Intn(3)]
+		seed := uint64(1)
+		for _, a := range tops {
+			t = append(t, TNode{Path: a, Dir: true})
+			for _, b := range subs {
+				t = append(t, TNode{Path: a + "/" + b, Dir: true})
+				seed++
+				t = append(t, TNode{Path: a + "/" + b + "/readme.txt", Size: 40 + int(seed), Seed: seed})
+				seed++
+				t = append(t, TNode{Path: a + "/" + b + "/only_" + a + "_" + b + ".txt", Size: 15, Seed: seed})
+				if r.Chance(0.6) {
+					t = append(t, TNode{Path: a + "/" + b + "/deep", Dir: true})
+					seed++
+					t = append(t, TNode{Path: a + "/" + b + "/deep/data.bin", Size: unit + int(seed), Seed: seed})
+				}
+			}
+		}
+		return t
 	case "deep":
 		var t Tree
 		p := ""
@@ -763,18 +786,18 @@ func c06Run(c core.Case, env *core.Env) core.Result {
 }
 
 func init() {
-	shapes := []string{"mixed", "flat-many", "collisions", "deep", "sizes", "longnames"}
+	shapes := []string{"mixed", "flat-many", "collisions", "deep", "sizes", "longnames", "same-names"}
 	core.Register(&core.Check{
 		ID:          "C06",
 		Level:       "exploration",
-		Rule:        "generated workspace trees (mixed; one directory with 130-330 files; 2-40 names colliding after 8.3 truncation; depth 7-11; sizes 0,1,block-1,block,block+1,...,3 MiB; long and Unicode names incl. Rock Ridge names needing continuation areas; symlinks under Rock Ridge; steered trees in which the records of the root, of a subdirectory or of the Joliet root add up to exactly one logical block - names are grown and shrunk with the raw directory re-read after every build until the sum is exact) x {plain, Rock Ridge, Joliet, both} x block size {2048, 4096, 8192} x DeepDirectories x start {0, 1 MiB}, always on storage pre-filled with a non-zero pattern (a reused image file or partition); every file carries unique content so image files are matched to source files by content; the finalized image is walked through iso9660.Read (structure, byte-identical contents, names exact under RR/Joliet, members of the documented 8.3 rule otherwise) and through the independent reader isock over the primary volume descriptor (same files by content, extents inside the image, no overlaps); a Finalize refusal is an observation; non-trivial = tree accepted by Finalize; distinct = distinct (options, start, tree)",
+		Rule:        "generated workspace trees (mixed; one directory with 130-330 files; 2-40 names colliding after 8.3 truncation; depth 7-11; the same directory names under sibling parents two and three levels down; sizes 0,1,block-1,block,block+1,...,3 MiB; long and Unicode names incl. Rock Ridge names needing continuation areas; symlinks under Rock Ridge; steered trees in which the records of the root, of a subdirectory or of the Joliet root add up to exactly one logical block - names are grown and shrunk with the raw directory re-read after every build until the sum is exact) x {plain, Rock Ridge, Joliet, both} x block size {2048, 4096, 8192} x DeepDirectories x start {0, 1 MiB}, always on storage pre-filled with a non-zero pattern (a reused image file or partition); every file carries unique content so image files are matched to source files by content; the finalized image is walked through iso9660.Read (structure, byte-identical contents, names exact under RR/Joliet, members of the documented 8.3 rule otherwise) and through the independent reader isock over the primary volume descriptor (same files by content, extents inside the image, no overlaps); a Finalize refusal is an observation; non-trivial = tree accepted by Finalize; distinct = distinct (options, start, tree)",
 		Assumptions: []string{"isock (internal/isock) is an independent ECMA-119/SUSP/RRIP reader calibrated on hand-made images", "isock rules outside the statement (directory length not a block multiple, dot entries, path tables, record order, SUSP details, Joliet tree extents) are recorded, not reported", "symlinks are only put into Rock Ridge trees; Joliet names are BMP and at most 64 units"},
 		MinSigs:     map[string]int{"quick": 25, "thorough": 500},
-		NeedMarks:   []string{"mode plain", "mode rockridge", "mode joliet", "mode rr+joliet", "image inside a partition", "block 4096", "shape collisions", "shape deep", "shape flat-many", "records of a directory add up to exactly one block (primary-root)", "records of a directory add up to exactly one block (primary-sub)", "records of a directory add up to exactly one block (joliet-root)"},
+		NeedMarks:   []string{"mode plain", "mode rockridge", "mode joliet", "mode rr+joliet", "image inside a partition", "block 4096", "shape collisions", "shape deep", "shape flat-many", "shape same-names", "records of a directory add up to exactly one block (primary-root)", "records of a directory add up to exactly one block (primary-sub)", "records of a directory add up to exactly one block (joliet-root)"},
 		CPUSec:      600,
 		Cases: func(seed int64, tier string) []core.Case {
 			r := gen.New(seed ^ 0xC06)
-			n := 48
+			n := 56
 			if tier == "thorough" {
 				n = 1500
 			}
